@@ -56,6 +56,12 @@ LinksInRange(F) ==
    \A i \in 1..Len(F.used) :
       LET v == Val(F, F.used[i]) IN v >= EocMin(F.ft) \/ v = BadMark(F.ft) \/ InRangeC(F, v)
 
+\* no stored link of a used entry leads to a FREE entry (C03.link_free).  The table writers keep this even when a device call
+\* fails half-way: an allocation marks the new cluster before it links it, and a chain is freed from its head
+LinksToUsed(F) ==
+   \A i \in 1..Len(F.used) :
+      LET v == Val(F, F.used[i]) IN (v >= EocMin(F.ft) \/ v = BadMark(F.ft) \/ ~InRangeC(F, v)) \/ Val(F, v) # 0 \/ IsBadC(F, v)
+
 (***************************************************************************)
 (* Ownership.  owners = sequence of walk results, one per live directory   *)
 (* entry that owns a chain (plus the FAT32 root directory).                *)
